@@ -74,6 +74,7 @@ class GateSim(PeerSim):
         self.eut.auto_logon = cfg["prefix"] != "connected"
         self.epoch = 0
         self.ep = self.new_epoch()
+        self.epochs = [self.ep]
         self.prefix_done = False
         self.prefix_step = 0
         self.n_stim = 0
@@ -133,8 +134,15 @@ class GateSim(PeerSim):
         if kind == "on_connect":
             self.epoch += 1
             self.ep = self.new_epoch()
+            self.epochs.append(self.ep)
             return
         if kind == "on_disconnect":
+            # the report may arrive late (disconnect() awaits on_state_change first) - even after the next
+            # connection's on_connect: it belongs to the oldest connection that went down unreported
+            for old in self.epochs:
+                if old.get("state_down") and old["n_on_disconnect"] == 0:
+                    e = old
+                    break
             e["n_on_disconnect"] += 1
             if e["n_on_disconnect"] > 1:
                 self.flag("disconnect-reported-twice", f"C11/on_disconnect-twice/{self.ctx()}",
@@ -153,6 +161,11 @@ class GateSim(PeerSim):
                           f"(wrote Logon: {e['wrote_logon']}, received Logon: {e['got_logon']})")
         if kind == "state":
             st = args[0]
+            if st <= DISC:
+                # a disconnect() in progress belongs to the connection that was up when it started
+                # (disconnect() sets the state synchronously right after closing the socket, before any
+                # reconnect can happen: the event belongs to the current connection)
+                e["state_down"] = True
             if st == ConnectionState.ACTIVE and not e["complete"]:
                 self.flag("active-before-logon", f"C11/active-before-logon-completed/{self.ctx()}",
                           f"connection became ACTIVE before the Logon exchange completed (wrote Logon: {e['wrote_logon']}, "
@@ -456,6 +469,11 @@ class GateSim(PeerSim):
         self.stim_log.append((cur["cls"], cur.get("t", cur["x"]), cur.get("defect"), cur["state"].name,
                               self.eut.connection_state.name, cur.get("overlap")))
         if cur["cls"] != "frame" or cur.get("overlap") or cur["disconnected"] or cur["epoch"] != self.epoch:
+            return
+        if self.cfg["hb"] < 30:
+            # with a 1-2 s heartbeat the watchdog's own TestRequests / disconnects fall into the window: the
+            # reaction to the frame cannot be told apart, only the global gate invariants are judged
+            self.probe("window_not_judged_watchdog_noise")
             return
         defect, t, pd = cur["defect"], cur["t"], cur["pd"]
         st0 = cur["state"]
